@@ -125,7 +125,9 @@ def main():
         c.setdefault('origin', 'gen')
     cases.extend(gen)
 
-    # ---- 4. implementation
+    # ---- 4. implementation (line coverage of the anchored files is recorded from here to the end of step 6)
+    anchor_cov = C.AnchorCoverage(list(getattr(mod, 'ANCHOR_FILES', [])) + list(getattr(mod, 'COVERAGE_FILES', [])))
+    anchor_cov.start()
     outs = [safe_impl(mod, c) for c in cases]
     harness_errs = [(i, o) for i, o in enumerate(outs) if isinstance(o, dict) and 'harness_exception' in o]
 
@@ -163,6 +165,8 @@ def main():
         for f in extra.get('failures', []):
             cases.append(f['case']); outs.append(f.get('out'))
             oracle_fail.append((len(cases) - 1, f['what']))
+
+    anchor_cov.stop()
 
     # ---- 7. verdict
     seen_known = collections.OrderedDict()
@@ -277,6 +281,7 @@ def main():
         distribution=dict(dist),
         anchors_digest=digest_now, anchors_baseline=baseline, escalated=escalated,
         notes=notes + list(extra.get('notes', [])),
+        anchored_line_coverage=anchor_cov.report(),
     )
     for k, v in extra.items():
         if k not in ('failures', 'notes'):
